@@ -4,8 +4,8 @@
 set -e
 . "$(dirname "$0")/../env.sh" 2>/dev/null
 REPO=${VERIF_REPO:-/repo}
-f=$(readlink -f "$1"); pkg=$2; name=$3
+f=$(readlink -f "$1"); pkg=$2; name=$3; shift 3 # further arguments are passed to go test (e.g. -race)
 ov=$(mktemp /tmp/verif-ov.XXXXXX.json)
 trap 'rm -f "$ov"' EXIT
 printf '{"Replace":{"%s/%s/zz_replay_verif_test.go":"%s"}}\n' "$REPO" "$pkg" "$f" > "$ov"
-cd "$REPO" && go test -overlay "$ov" -vet=off -count=1 -timeout 60s -run "^$name\$" "./$pkg"
+cd "$REPO" && go test "$@" -overlay "$ov" -vet=off -count=1 -timeout 120s -run "^$name\$" "./$pkg"
